@@ -36,14 +36,35 @@
       theorem print_parse_roundtrip (t : Expr) (ρ : Layout t) (h : Printable t ρ) :
           Accepts pinEnv pinGrammar (print t ρ) (.expr (norm t))
 
-    for every tree `t`, every layout, arbitrary (non-ASCII) string contents, and `Printable`
-    demanding only what the bexpr language itself demands.
+    for every tree `t`, every layout, and `Printable` demanding only what the bexpr language
+    itself demands.  String contents and pointer segments are no longer restricted to ASCII
+    (see 1); what separates the proved statement from this one is 2–6 below, of which 2 is a
+    defect of the pinned grammar and 3–6 are properties of the language.
 
   RESTRICTIONS of the proved statement (all are explicit hypotheses inside `Top.WF`):
-   1. ASCII only: every byte of the text is `< 0x80` (`Asc`).  So string bodies and JSON-pointer
-      segments are ASCII; the double-quoted renderer `quoteX22` is covered for ASCII source
-      strings (`string_literal_quoteX22`), any other double-quoted / backquoted body must be
-      ASCII (its denotation is whatever `strconv.Unquote` says: `PartSp.WF`, `ValSp.WF`).
+   1. (was: ASCII only — LIFTED.)  The text is VALID UTF-8, not ASCII: `VT` = Go's
+      `utf8.ValidString` (`valid_text_iff`; `Proofs/Utf8Text.lean`).  Concretely
+        · the body of a backquoted or double-quoted literal (value or index `a["…"]`) is ANY
+          valid UTF-8 string without the delimiter byte (`PartSp.WF`, `ValSp.WF`: `VT body`); a
+          backquoted body without `\r` denotes itself (`string_literal_backtick`), any other body
+          whatever `strconv.Unquote` says (`string_literal_general`);
+        · the renderer's double-quoted literal `quoteX22 s` is covered for EVERY byte string `s`,
+          valid UTF-8 or not (`string_literal_quoteX22`, `quoteX22_shape`: its output is always
+          valid text — printable runes raw, everything else and every invalid byte escaped), also
+          inside renderings (`value_quoteX22_WF`, `index_quoteX22_WF`, `value_backtick_WF`;
+          `wf_value_literal`, `wf_index_literal`, `wf_pointer` spell the hypotheses out);
+        · a JSON-pointer segment is any non-empty valid UTF-8 string whose runes are in the
+          grammar's class `[\pL\pN-_.~:|]` with Go's `unicode.L` / `unicode.N` tables, non-ASCII
+          letters and digits included (`SegOK`, `segOK_iff`, `pointer_segment`);
+        · blanks, keywords, identifiers, numbers and punctuation are ASCII because the grammar
+          says so (`[ \t\r\n]`, `[a-zA-Z][a-zA-Z0-9_/]*`, …), not because of the proof.
+      What is still required, validity of the UTF-8, is required by the parser itself: `read`
+      logs `invalid encoding` on every byte that does not start a well-formed rune, and a run
+      with a non-empty log is a rejection; a raw invalid byte inside a literal makes the engine
+      reject (instance: `Example.invalid_byte_rejected`; not proved in general here) — it has to
+      be written `\xHH` inside a double-quoted literal, which is what `quoteX22` does.  The lexical core is `any_multibyte` / `Proofs/RoundTripLex.lean`: at a well-formed
+      multi-byte rune the position holds that rune, reading it advances by the width of its
+      encoding and logs nothing, and it matches no ASCII literal and no ASCII-only class.
    2. A DOUBLE-quoted value literal must have a non-empty body that does not start with `/`
       (`ValSp.WF`).  This is a property of the pinned grammar, not of the proof: `Value` tries
       `Selector` first, which reads `"/usr/bin"` as a JSON pointer, so the literal's `Raw` becomes
@@ -55,9 +76,9 @@
    4. The first identifier of a quantifier's selector is none of `contains`, `matches`, `not`,
       `is`, `in` (`SelX.kwOK`): `any contains as x {…}` IS a match expression `any contains as`
       for the grammar (language property).
-   5. JSON-pointer selector spelling: every escaped path element is non-empty and over
-      `[A-Za-z0-9-_.~:|]` (the grammar's `[\pL\pN-_.~:|]+` restricted to ASCII); the path is
-      non-empty.
+   5. JSON-pointer selector spelling: every escaped path element is non-empty and over the
+      grammar's `[\pL\pN-_.~:|]+` (language property: any other rune ends the segment — `SegOK`,
+      no longer restricted to ASCII); the path is non-empty.
    6. A number value must be followed by a blank, `)` or the end of input — the grammar's own
       `AfterNumbers` condition.  Inside a rendering this always holds except for a quantifier
       body ending in a number directly before `}`: there a blank is required (`Sp.WF` of `coll`),
@@ -75,7 +96,8 @@ open Bexpr Bexpr.Peg Bexpr.Driver Bexpr.Proofs.RoundTrip
 /-- **C16, as proved.**  Every well-formed rendering `ρ` (any blanks, any redundant
     parentheses, any selector / operator / literal / binding spellings, see the header) of a
     tree parses back to that tree with `not not e` folded to `e`.
-    Restrictions: see 1–6 in the header. -/
+    Restrictions: see 2–6 in the header (1, ASCII only, is lifted: string bodies and pointer
+    segments are arbitrary valid UTF-8). -/
 theorem print_parse_roundtrip_partial (ρ : Top) (h : ρ.WF) :
     Accepts pinEnv pinGrammar ρ.text (.expr (norm ρ.ast)) :=
   accepts_top_norm ρ h
@@ -101,7 +123,7 @@ theorem print_parse_roundtrip_unique (ρ : Top) (h : ρ.WF) (n : Nat)
     level), from any offset, logging nothing. -/
 theorem level_roundtrip {l : Lvl} (c : Sp l) (h : c.WF) (rest : GoString)
     (hc : Ctx l c.endsNum rest)
-    (hr : Asc rest) (rule : String) (fr : Frame) (off : Nat) (errs : List PErr) :
+    (hr : VT rest) (rule : String) (fr : Frame) (off : Nat) (errs : List PErr) :
     Sem pinEnv pinGrammar rule (.ruleRef (ruleName l)) fr (ptAt (c.text ++ rest) off) errs
       (.res (ptAt rest (off + c.text.length)) errs fr (.expr (norm c.ast)) true) := by
   have := eats_Sp c h rest hc hr rule fr off errs
@@ -157,63 +179,163 @@ theorem in_contains_same (x : SelX) (v : ValSp) (w₁ w₂ u₁ u₂ u₃ : GoSt
 
 /-- The rule `MatchExpression` on any spelled match expression. -/
 theorem match_roundtrip (m : MatchSp) (h : m.WF) (rest : GoString) (hf : m.follow rest)
-    (hr : Asc rest) (rule : String) (fr : Frame) (off : Nat) (errs : List PErr) :
+    (hr : VT rest) (rule : String) (fr : Frame) (off : Nat) (errs : List PErr) :
     Sem pinEnv pinGrammar rule (.ruleRef "MatchExpression") fr (ptAt (m.text ++ rest) off) errs
       (.res (ptAt rest (off + m.text.length)) errs fr (.expr m.ast) true) :=
   eats_MatchExpression m h hf hr
 
 /-! ## 4. Literals: a quoted literal denotes the Go string it spells -/
 
-/-- Backquoted literal: the bytes between the backquotes (ASCII, no backquote, no `\r`). -/
-theorem string_literal_backtick (s rest : GoString) (hs : Asc s)
-    (hnq : ∀ c ∈ s, c ≠ 0x60 ∧ c ≠ 0x0D) (hr : Asc rest) (rule : String) (fr : Frame) (off : Nat)
+/-- `VT` ("valid text", the hypothesis on the surrounding input everywhere below) is Go's
+    `utf8.ValidString`. -/
+theorem valid_text_iff (s : GoString) : VT s ↔ Utf8.validString s = true :=
+  vt_iff_validString s
+
+/-- ASCII text is valid text. -/
+theorem valid_text_of_ascii (s : GoString) (h : Asc s) : VT s := h.vt
+
+/-- Backquoted literal: the bytes between the backquotes — ANY valid UTF-8 string without
+    backquote and `\r` (Go drops `\r` from raw strings). -/
+theorem string_literal_backtick (s rest : GoString) (hs : Utf8.validString s = true)
+    (hnq : ∀ c ∈ s, c ≠ 0x60 ∧ c ≠ 0x0D) (hr : VT rest) (rule : String) (fr : Frame) (off : Nat)
     (errs : List PErr) :
     Sem pinEnv pinGrammar rule (.ruleRef "StringLiteral") fr
       (ptAt (([0x60] ++ (s ++ [0x60])) ++ rest) off) errs
       (.res (ptAt rest (off + ([0x60] ++ (s ++ [0x60])).length)) errs fr (.str s) true) :=
-  eats_StringLiteral_backtick s hs hnq hr
+  eats_StringLiteral_backtick s ((vt_iff_validString s).2 hs) hnq hr
 
 /-- Double-quoted literal as written by the renderer (`strconv.Quote` with `\x22` for `"`):
-    denotes the original string, for EVERY ASCII string `s` (control bytes, quotes and
-    backslashes included). -/
-theorem string_literal_quoteX22 (s rest : GoString) (hs : Asc s) (hr : Asc rest) (rule : String)
+    denotes the original string, for EVERY byte string `s` — valid UTF-8 or not, control bytes,
+    quotes, backslashes, non-ASCII runes (printable ones are written raw, the others and every
+    invalid byte as ASCII escapes). -/
+theorem string_literal_quoteX22 (s rest : GoString) (hr : VT rest) (rule : String)
     (fr : Frame) (off : Nat) (errs : List PErr) :
     Sem pinEnv pinGrammar rule (.ruleRef "StringLiteral") fr
       (ptAt (Strconv.quoteX22 s ++ rest) off) errs
       (.res (ptAt rest (off + (Strconv.quoteX22 s).length)) errs fr (.str s) true) :=
-  eats_StringLiteral_quoteX22_asc s hs hr
+  eats_StringLiteral_quoteX22 s hr
 
-/-- … for a non-ASCII `s` whose rendering happens to be ASCII-free of multi-byte runes the
-    same holds; in general the hypothesis is on the rendered text. -/
-theorem string_literal_quoteX22_partial (s rest : GoString) (ha : Asc (Strconv.quoteX22 s))
+/-- The earlier form (hypothesis: the rendered text is ASCII), kept under its name; now a
+    special case of `string_literal_quoteX22`, the hypothesis on the rendering is not used. -/
+theorem string_literal_quoteX22_partial (s rest : GoString) (_ha : Asc (Strconv.quoteX22 s))
     (hr : Asc rest) (rule : String) (fr : Frame) (off : Nat) (errs : List PErr) :
     Sem pinEnv pinGrammar rule (.ruleRef "StringLiteral") fr
       (ptAt (Strconv.quoteX22 s ++ rest) off) errs
       (.res (ptAt rest (off + (Strconv.quoteX22 s).length)) errs fr (.str s) true) :=
-  eats_StringLiteral_quoteX22 s ha hr
+  eats_StringLiteral_quoteX22 s hr.vt
 
-/-- Any delimited literal `q body q` (ASCII body without `q`): denotes `strconv.Unquote` of
-    the token. -/
+/-- … because the rendering is always `"`, valid UTF-8 text without `"`, `"`. -/
+theorem quoteX22_shape (s : GoString) :
+    ∃ body, Strconv.quoteX22 s = [0x22] ++ (body ++ [0x22]) ∧ (∀ c ∈ body, c ≠ 0x22) ∧
+      Utf8.validString body = true := by
+  obtain ⟨body, h1, h2, h3⟩ := quoteX22_body s
+  exact ⟨body, h1, h2, (vt_iff_validString body).1 h3⟩
+
+/-- Any delimited literal `q body q` (body: valid UTF-8 without the byte `q`): denotes
+    `strconv.Unquote` of the token. -/
 theorem string_literal_general (q : UInt8) (hq : q = 0x60 ∨ q = 0x22) (body s rest : GoString)
-    (hb : Asc body) (hnq : ∀ c ∈ body, c ≠ q)
-    (hu : Strconv.unquote ([q] ++ (body ++ [q])) = some s) (hr : Asc rest) (rule : String)
+    (hb : Utf8.validString body = true) (hnq : ∀ c ∈ body, c ≠ q)
+    (hu : Strconv.unquote ([q] ++ (body ++ [q])) = some s) (hr : VT rest) (rule : String)
     (fr : Frame) (off : Nat) (errs : List PErr) :
     Sem pinEnv pinGrammar rule (.ruleRef "StringLiteral") fr
       (ptAt (([q] ++ (body ++ [q])) ++ rest) off) errs
       (.res (ptAt rest (off + ([q] ++ (body ++ [q])).length)) errs fr (.str s) true) :=
-  eats_StringLiteral hq body s hb hnq hu hr
+  eats_StringLiteral hq body s ((vt_iff_validString body).2 hb) hnq hu hr
+
+/-- The lexical core of the generalisation: at a well-formed multi-byte rune the parser's
+    position holds that rune, `.` consumes exactly its encoding and logs nothing. -/
+theorem any_multibyte (r : Nat) (hv : Utf8.validRune r = true) (h80 : 0x80 ≤ r)
+    (rest : GoString) (hr : VT rest) (rule : String) (fr : Frame) (off : Nat) (errs : List PErr) :
+    (ptAt (Utf8.encodeRune r ++ rest) off).rn = r ∧
+    Sem pinEnv pinGrammar rule .any fr (ptAt (Utf8.encodeRune r ++ rest) off) errs
+      (.res (ptAt rest (off + (Utf8.encodeRune r).length)) errs fr
+        (.bytes (Utf8.encodeRune r)) true) :=
+  ⟨ptAt_rn_rune rest off hv h80, Eats.any_rune hv h80 hr⟩
+
+/-- JSON-pointer segment: `/` and non-empty valid UTF-8 all of whose runes are letters or
+    numbers (Go's `unicode.L`, `unicode.N`) or one of `-_.~:|`, followed by the end of input or
+    an ASCII byte outside the class (in a selector: `/` or `"`). -/
+theorem pointer_segment (g rest : GoString) (hg : SegOK g) (hstop : stopsAt segRune rest)
+    (hr : VT rest) (rule : String) (fr : Frame) (off : Nat) (errs : List PErr) :
+    Sem pinEnv pinGrammar rule (.ruleRef "JsonPointerSegment") fr (ptAt (([47] ++ g) ++ rest) off)
+      errs (.res (ptAt rest (off + ([47] ++ g).length)) errs fr (.str g) true) :=
+  eats_JsonPointerSegment hg hstop hr
+
+/-- `SegOK`, spelled out and as a computation. -/
+theorem segOK_iff (g : GoString) :
+    SegOK g ↔ g ≠ [] ∧ runesInB (fun r => [45, 95, 46, 126, 58, 124].contains r ||
+      (Unicode.isL r || Unicode.isN r)) g = true :=
+  Iff.intro (fun h => ⟨h.1, (runesIn_iff _ g).1 h.2⟩) (fun h => ⟨h.1, (runesIn_iff _ g).2 h.2⟩)
+
+/-! ### What `Top.WF` demands of literals and pointer segments (restriction 1 lifted) -/
+
+/-- a quoted VALUE literal inside a rendering: any valid UTF-8 body without the delimiter
+    (plus restriction 2 for double quotes) -/
+theorem wf_value_literal (q : UInt8) (body val : GoString) :
+    (ValSp.str q body val).WF ↔ (q = 0x60 ∨ q = 0x22) ∧ Utf8.validString body = true ∧
+      (∀ c ∈ body, c ≠ q) ∧ Strconv.unquote ([q] ++ (body ++ [q])) = some val ∧
+      (q = 0x22 → ∃ c t, body = c :: t ∧ c ≠ 47) := by
+  show (_ ∧ VT body ∧ _) ↔ _
+  rw [vt_iff_validString]
+
+/-- a quoted INDEX literal `[ws₁ q body q ws₂]` inside a rendering -/
+theorem wf_index_literal (ws₁ ws₂ body val : GoString) (q : UInt8) :
+    (PartSp.index ws₁ q body ws₂ val).WF ↔ AllIn isWs ws₁ ∧ AllIn isWs ws₂ ∧
+      (q = 0x60 ∨ q = 0x22) ∧ Utf8.validString body = true ∧ (∀ c ∈ body, c ≠ q) ∧
+      Strconv.unquote ([q] ++ (body ++ [q])) = some val := by
+  show (_ ∧ _ ∧ _ ∧ VT body ∧ _) ↔ _
+  rw [vt_iff_validString]
+
+/-- a JSON-pointer selector inside a rendering -/
+theorem wf_pointer (path : List GoString) :
+    (SelX.ptr path).WF ↔ path ≠ [] ∧ ∀ p ∈ path, SegOK (C16Lex.ptrEscape p) := Iff.rfl
+
+/-- a backquoted value: every valid UTF-8 string without backquote and `\r` may be written
+    between backquotes in a rendering, and denotes itself -/
+theorem value_backtick_WF (s : GoString) (hs : Utf8.validString s = true)
+    (hnq : ∀ c ∈ s, c ≠ 0x60 ∧ c ≠ 0x0D) : (ValSp.str 0x60 s s).WF :=
+  ⟨.inl rfl, (vt_iff_validString s).2 hs, fun c hc => (hnq c hc).1,
+    by simpa using C16Lex.unquote_quote_backtick s hnq, fun h => by cases h⟩
+
+/-- the renderer's double-quoted value: for EVERY byte string `s` (valid UTF-8 or not) the
+    literal `quoteX22 s = "body"` may be written in a rendering and denotes `s` — subject only
+    to restriction 2 (body non-empty, not starting with `/`) -/
+theorem value_quoteX22_WF (s body : GoString)
+    (h : Strconv.quoteX22 s = [0x22] ++ (body ++ [0x22]))
+    (h2 : ∃ c t, body = c :: t ∧ c ≠ 47) : (ValSp.str 0x22 body s).WF := by
+  obtain ⟨b', e, hnq, hvt⟩ := quoteX22_body s
+  have hb : b' = body := by
+    rw [e] at h
+    exact List.append_cancel_right (List.append_cancel_left h)
+  subst hb
+  refine ⟨.inr rfl, hvt, hnq, ?_, fun _ => h2⟩
+  rw [← e]
+  exact C16Lex.unquote_quote_double_x22 s
+
+/-- … and as an index literal `a[ "body" ]`, without restriction 2 -/
+theorem index_quoteX22_WF (s body ws₁ ws₂ : GoString) (h1 : AllIn isWs ws₁) (h2 : AllIn isWs ws₂)
+    (h : Strconv.quoteX22 s = [0x22] ++ (body ++ [0x22])) :
+    (PartSp.index ws₁ 0x22 body ws₂ s).WF := by
+  obtain ⟨b', e, hnq, hvt⟩ := quoteX22_body s
+  have hb : b' = body := by
+    rw [e] at h
+    exact List.append_cancel_right (List.append_cancel_left h)
+  subst hb
+  refine ⟨h1, h2, .inr rfl, hvt, hnq, ?_⟩
+  rw [← e]
+  exact C16Lex.unquote_quote_double_x22 s
 
 /-- Numbers: `-?(0|[1-9][0-9]*)(\.[0-9]+)?` followed by a blank, `)` or the end of input is
     returned as its text. -/
 theorem number_literal (n : NumLit) (hn : n.WF) (rest : GoString) (hf : numFollow rest = true)
-    (hr : Asc rest) (rule : String) (fr : Frame) (off : Nat) (errs : List PErr) :
+    (hr : VT rest) (rule : String) (fr : Frame) (off : Nat) (errs : List PErr) :
     Sem pinEnv pinGrammar rule (.ruleRef "NumberLiteral") fr (ptAt (n.text ++ rest) off) errs
       (.res (ptAt rest (off + n.text.length)) errs fr (.str n.text) true) :=
   eats_NumberLiteral n hn hf hr
 
 /-- Identifiers: `[a-zA-Z][a-zA-Z0-9_/]*`, maximal. -/
 theorem identifier (b : UInt8) (x rest : GoString) (hb : isAlpha b.toNat = true)
-    (hx : AllIn isIdc x) (hstop : headIn isIdc rest = false) (hr : Asc rest) (rule : String)
+    (hx : AllIn isIdc x) (hstop : headIn isIdc rest = false) (hr : VT rest) (rule : String)
     (fr : Frame) (off : Nat) (errs : List PErr) :
     Sem pinEnv pinGrammar rule (.ruleRef "Identifier") fr (ptAt ((b :: x) ++ rest) off) errs
       (.res (ptAt rest (off + (b :: x).length)) errs fr (.str (b :: x)) true) :=
@@ -221,7 +343,7 @@ theorem identifier (b : UInt8) (x rest : GoString) (hb : isAlpha b.toNat = true)
 
 /-- The three value styles: a bare word / selector denotes its dotted path, a number its text,
     a quoted literal its unquoted string. -/
-theorem value_styles (v : ValSp) (h : v.WF) (rest : GoString) (hf : v.follow rest) (hr : Asc rest)
+theorem value_styles (v : ValSp) (h : v.WF) (rest : GoString) (hf : v.follow rest) (hr : VT rest)
     (rule : String) (fr : Frame) (off : Nat) (errs : List PErr) :
     Sem pinEnv pinGrammar rule (.ruleRef "Value") fr (ptAt (v.text ++ rest) off) errs
       (.res (ptAt rest (off + v.text.length)) errs fr (.mval v.raw) true) :=
@@ -281,8 +403,8 @@ theorem m2_WF : m2.WF ∧ m2.notKwOK := by
   · intro p hp
     simp only [List.mem_cons, List.not_mem_nil, or_false] at hp
     rcases hp with rfl | rfl
-    · rw [C16Lex.ptrEscape_eq_flatMap]; exact ⟨by decide, by decide, by decide⟩
-    · rw [C16Lex.ptrEscape_eq_flatMap]; exact ⟨by decide, by decide, by decide⟩
+    · rw [C16Lex.ptrEscape_eq_flatMap]; exact SegOK.of_ascii (by decide) (by decide) (by decide)
+    · rw [C16Lex.ptrEscape_eq_flatMap]; exact SegOK.of_ascii (by decide) (by decide) (by decide)
   · intro σ hσ
     simp [m2, strV, MatchSp.lead] at hσ
 
@@ -395,7 +517,8 @@ theorem top2_WF : top2.WF := by
     · intro p hp
       simp only [List.mem_cons, List.not_mem_nil, or_false] at hp
       rcases hp with rfl | rfl <;>
-        (rw [C16Lex.ptrEscape_eq_flatMap]; exact ⟨by decide, by decide, by decide⟩)
+        (rw [C16Lex.ptrEscape_eq_flatMap];
+         exact SegOK.of_ascii (by decide) (by decide) (by decide))
     · intro σ hσ
       simp only [MatchSp.lead, Option.some.injEq] at hσ
       subst hσ
@@ -407,6 +530,88 @@ theorem top2_accepted : Accepts pinEnv pinGrammar top2.text (.expr (norm top2.as
 
 theorem top2_engine : (run pinEnv pinGrammar 0 top2.text).errs = [] ∧
     valExpr (run pinEnv pinGrammar 0 top2.text).val = some (norm top2.ast) := by
+  decide +kernel
+
+/-! ### A rendering with non-ASCII text: string bodies, an index literal, pointer segments -/
+
+/-- the UTF-8 bytes of a Lean string, by the model's `encodeRune` -/
+def utf8 (s : String) : GoString := s.toList.flatMap fun c => Utf8.encodeRune c.toNat
+
+def seg1 : GoString := [0xE5, 0x90, 0x8D, 0xE5, 0x89, 0x8D]            -- 名前
+def seg2 : GoString := [0xC3, 0xA9, 0x31]                              -- é1
+def rawV : GoString := [110, 97, 0xC3, 0xAF, 118, 101, 32, 0xE2, 0x98, 0x83]   -- naïve ☃
+def keyK : GoString := [0xD0, 0xBA, 0xD0, 0xBB, 0xD1, 0x8E, 0xD1, 0x87]  -- ключ
+def dqBody : GoString := [0xE6, 0x97, 0xA5, 0xE6, 0x9C, 0xAC, 0x5C, 0x74]  -- 日本\t (escape)
+def dqVal : GoString := [0xE6, 0x97, 0xA5, 0xE6, 0x9C, 0xAC, 9]          -- 日本<TAB>
+
+/-- `"/名前/é1" contains `naïve ☃`` -/
+def m4 : MatchSp := .opValue (.ptr [seg1, seg2]) (.contains [32] [32]) (.str 0x60 rawV rawV)
+/-- `x["ключ"] == "日本\t"` -/
+def m5 : MatchSp := .opValue (.bexpr ⟨120, [], [.index [] 0x22 keyK [] keyK]⟩) (.eq [32] [32])
+  (.str 0x22 dqBody dqVal)
+
+def top3 : Top := ⟨[], .orOp (.andUp (.leaf m4)) [32] [32] (.orUp (.andUp (.leaf m5))), []⟩
+
+theorem top3_text : top3.text =
+    utf8 "\"/名前/é1\" contains `naïve ☃` or x[\"ключ\"] == \"日本\\t\"" := by
+  decide +kernel
+
+/-- the renderer writes printable non-ASCII runes raw, the tab as `\t`, an invalid byte as
+    `\xff` -/
+theorem quoteX22_examples :
+    Strconv.quoteX22 dqVal = [0x22] ++ (dqBody ++ [0x22]) ∧
+    Strconv.quoteX22 ([0xFF] ++ seg2) = utf8 "\"\\xffé1\"" := by
+  decide +kernel
+
+theorem m4_WF : m4.WF ∧ m4.notKwOK := by
+  refine ⟨⟨⟨by decide, ?_⟩, ⟨⟨by decide, by decide⟩, ⟨by decide, by decide⟩⟩,
+    ⟨.inl rfl, by decide +kernel, by decide, by decide +kernel, fun h => by cases h⟩⟩, ?_⟩
+  · intro p hp
+    simp only [List.mem_cons, List.not_mem_nil, or_false] at hp
+    rcases hp with rfl | rfl
+    · rw [C16Lex.ptrEscape_eq_flatMap]; decide +kernel
+    · rw [C16Lex.ptrEscape_eq_flatMap]; decide +kernel
+  · intro σ hσ
+    simp [m4, MatchSp.lead] at hσ
+
+theorem m5_WF : m5.WF ∧ m5.notKwOK := by
+  refine ⟨⟨⟨by decide, by decide, ?_⟩, ⟨by decide, by decide⟩,
+    ⟨.inr rfl, by decide +kernel, by decide, by decide +kernel,
+      fun _ => ⟨0xE6, _, rfl, by decide⟩⟩⟩, ?_⟩
+  · intro p hp
+    simp only [List.mem_cons, List.not_mem_nil, or_false] at hp
+    subst hp
+    exact ⟨by decide, by decide, .inr rfl, by decide +kernel, by decide, by decide +kernel⟩
+  · intro σ hσ
+    simp only [m5, MatchSp.lead, Option.some.injEq] at hσ
+    subst hσ
+    decide
+
+theorem top3_WF : top3.WF :=
+  ⟨by decide, ⟨m4_WF, ⟨by decide, by decide⟩, ⟨by decide, by decide⟩, m5_WF⟩, by decide⟩
+
+theorem top3_tree : norm top3.ast =
+    .or (.match_ ⟨.jsonPointer, [seg1, seg2]⟩ .in_ (some rawV))
+        (.match_ ⟨.bexpr, [[120], keyK]⟩ .equal (some dqVal)) := by
+  decide +kernel
+
+/-- validity is needed: ``a == `<0xFF>` `` (a raw invalid byte in a backquoted literal) is
+    rejected by the engine with an `invalid encoding` error, while the renderer's
+    `a == "\xff"` is accepted -/
+theorem invalid_byte_rejected :
+    (run pinEnv pinGrammar 0 (asc "a == `" ++ [0xFF] ++ asc "`")).accepted = false ∧
+    (run pinEnv pinGrammar 0 (asc "a == `" ++ [0xFF] ++ asc "`")).errs.all
+      (fun e => e.kind == .invalidEncoding && e.off == 6) = true ∧
+    (run pinEnv pinGrammar 0 (asc "a == " ++ Strconv.quoteX22 [0xFF])).accepted = true := by
+  decide +kernel
+
+/-- the non-ASCII example as an instance of the theorem -/
+theorem top3_accepted : Accepts pinEnv pinGrammar top3.text (.expr (norm top3.ast)) :=
+  print_parse_roundtrip_partial top3 top3_WF
+
+/-- … and by running the engine model on the text -/
+theorem top3_engine : (run pinEnv pinGrammar 0 top3.text).errs = [] ∧
+    valExpr (run pinEnv pinGrammar 0 top3.text).val = some (norm top3.ast) := by
   decide +kernel
 
 end Example
@@ -428,7 +633,19 @@ end Bexpr.Props.C16
 #print axioms Bexpr.Props.C16.string_literal_backtick
 #print axioms Bexpr.Props.C16.string_literal_quoteX22
 #print axioms Bexpr.Props.C16.string_literal_quoteX22_partial
+#print axioms Bexpr.Props.C16.quoteX22_shape
+#print axioms Bexpr.Props.C16.any_multibyte
+#print axioms Bexpr.Props.C16.pointer_segment
+#print axioms Bexpr.Props.C16.segOK_iff
+#print axioms Bexpr.Props.C16.valid_text_iff
+#print axioms Bexpr.Props.C16.valid_text_of_ascii
 #print axioms Bexpr.Props.C16.string_literal_general
+#print axioms Bexpr.Props.C16.wf_value_literal
+#print axioms Bexpr.Props.C16.wf_index_literal
+#print axioms Bexpr.Props.C16.wf_pointer
+#print axioms Bexpr.Props.C16.value_backtick_WF
+#print axioms Bexpr.Props.C16.value_quoteX22_WF
+#print axioms Bexpr.Props.C16.index_quoteX22_WF
 #print axioms Bexpr.Props.C16.number_literal
 #print axioms Bexpr.Props.C16.identifier
 #print axioms Bexpr.Props.C16.value_styles
@@ -441,3 +658,10 @@ end Bexpr.Props.C16
 #print axioms Bexpr.Props.C16.Example.top2_text
 #print axioms Bexpr.Props.C16.Example.top2_accepted
 #print axioms Bexpr.Props.C16.Example.top2_engine
+#print axioms Bexpr.Props.C16.Example.top3_text
+#print axioms Bexpr.Props.C16.Example.quoteX22_examples
+#print axioms Bexpr.Props.C16.Example.top3_WF
+#print axioms Bexpr.Props.C16.Example.top3_tree
+#print axioms Bexpr.Props.C16.Example.invalid_byte_rejected
+#print axioms Bexpr.Props.C16.Example.top3_accepted
+#print axioms Bexpr.Props.C16.Example.top3_engine
